@@ -240,6 +240,21 @@ static void observe(World &w, const char *tags) {
       if (E::val(cv.front()) != mv.front() || E::val(cv.back()) != mv.back()) vf::fail(tags, "slot %d: front()/back() wrong", i);
       if (cv.data() != &cv.front()) vf::fail(tags, "slot %d: data() != &front()", i);
     }
+    {
+      // the non-const and c-prefixed spellings designate the same elements as the const ones
+      V &nv = const_cast<V &>(cv);
+      if (nv.data() != cv.data() || nv.begin() != cv.begin() || nv.end() != cv.end() || cv.cbegin() != cv.begin() || cv.cend() != cv.end())
+        vf::fail(tags, "slot %d: non-const / c-prefixed begin, end or data disagree with the const ones", i);
+      if (nv.rbegin().base() != nv.end() || nv.rend().base() != nv.begin() || cv.crbegin().base() != cv.end() || cv.crend().base() != cv.begin() ||
+          cv.rbegin().base() != cv.end() || cv.rend().base() != cv.begin())
+        vf::fail(tags, "slot %d: reverse iterators are not based on begin() / end()", i);
+      if (sz > 0 && (&nv.front() != &cv.front() || &nv.back() != &cv.back() || &nv.back() != cv.data() + (sz - 1)))
+        vf::fail(tags, "slot %d: non-const front() / back() designate other elements than the const ones", i);
+      for (long q = 0; q < sz; ++q)
+        if (&nv.at((typename V::size_type)q) != cv.data() + q || &nv[(typename V::size_type)q] != cv.data() + q || &cv.at((typename V::size_type)q) != cv.data() + q)
+          vf::fail(tags, "slot %d: at(%ld) / operator[] do not designate data() + %ld", i, q, q);
+      if ((long)(cv.end() - cv.begin()) != sz) vf::fail(tags, "slot %d: end() - begin() is %ld, size %ld", i, (long)(cv.end() - cv.begin()), sz);
+    }
     for (int j = 0; j < w.K; ++j) {
       const V &o = w.slot[j].v();
       const std::vector<int> &mo = w.m[j].v;
